@@ -144,12 +144,17 @@ def calls():
 FIELDS = ("scheme", "user", "password", "host", "hostsub", "port", "path", "query", "fragment")
 
 
-def case_mod(acc, base, ci):
+def case_mod(acc, base, ci, lazy=False):
+    """lazy=True: the modifier is applied to a cache-free twin of the base (pickle round trip), i.e. to a URL whose
+    components are derived on demand from the stored strings - like every URL produced by another modifier."""
     name, fn, expf = calls()[ci]
     acc.evals += 1
     try:
         u = impl.URL(base)
         b = obs(u)
+        if lazy:
+            import pickle
+            u = pickle.loads(pickle.dumps(u))
     except (ValueError, TypeError):
         acc.count("base_rejected")
         return None
@@ -166,7 +171,7 @@ def case_mod(acc, base, ci):
         s = str(r)
     except Exception as e:  # noqa: BLE001
         acc.nontrivial += 1
-        acc.viol("mod", (base, ci), observed={"call": name, "error": repr(e)}, expected="a URL whose components can be read",
+        acc.viol("mod", (base, ci, lazy), observed={"call": name, "error": repr(e)}, expected="a URL whose components can be read",
                  msg="URL(%r).%s returned an object whose components cannot be read: %r" % (base, name, e))
         return None
     if s != str(u):
@@ -186,8 +191,8 @@ def case_mod(acc, base, ci):
         if got != want:
             probs.append("%s %r, expected %r" % (f, got, want))
     if probs:
-        acc.viol("mod", (base, ci), observed={"call": name, "result": s, "components": o}, expected={k: exp[k] for k in FIELDS if exp[k] != "QUERY"},
-                 msg="URL(%r).%s -> %r: %s" % (base, name, s, "; ".join(probs)))
+        acc.viol("mod", (base, ci, lazy), observed={"call": name, "result": s, "components": o}, expected={k: exp[k] for k in FIELDS if exp[k] != "QUERY"},
+                 msg="%sURL(%r).%s -> %r: %s" % ("cache-free twin of " if lazy else "", base, name, s, "; ".join(probs)))
     return s
 
 
@@ -223,10 +228,11 @@ def task_bases(part, nparts, quick):
         if i % nparts != part:
             continue
         for ci in range(n):
-            s = case_mod(acc, b, ci)
-            if s is not None:
-                states.add(s)
-                last = (b, calls()[ci][0], s)
+            for lazy in (False, True):
+                s = case_mod(acc, b, ci, lazy)
+                if s is not None:
+                    states.add(s)
+                    last = (b, calls()[ci][0], s)
     acc.state_count = len(states)
     if last:
         acc.sample({"base": last[0], "call": last[1], "result": last[2], "backend": impl.backend}, 1)
